@@ -56,6 +56,7 @@ func c02(args []string) {
 		rerun   bool
 		label   string
 		partial []string // ports of task subset[0] that are pre-placed (a proper subset of its outputs)
+		strace  bool     // also observe the run at syscall level
 	}
 	var jobs []*job
 	for g := 0; g < ngraphs; g++ {
@@ -125,7 +126,7 @@ func c02(args []string) {
 		for k, ss := range subsets {
 			kind := []string{"golden", "user", "empty"}[k%3]
 			cfg := Cfg{Buf: b, Procs: []int{1, 2, 4}[rng.Intn(3)], Sched: fmt.Sprintf("%d,300,600", rng.Intn(1<<30))}
-			jobs = append(jobs, &job{s: s, exp0: exp0, subset: ss, kind: kind, cfg: cfg, label: "subset"})
+			jobs = append(jobs, &job{s: s, exp0: exp0, subset: ss, kind: kind, cfg: cfg, label: "subset", strace: k == 0 && (c.Thorough() || g%4 == 0)})
 		}
 	}
 	run.Parallel(len(jobs), func(i int) {
@@ -270,11 +271,32 @@ func c02(args []string) {
 		cs := &run.Case{Root: root, Spec: s}
 		wd, _, _ := cs.Prepare()
 		before := run.Snap(wd)
-		res := execSpec(c, root, s, j.cfg, nil, true, 0)
+		var res *run.Result
+		var stLog string
+		if j.strace {
+			os.MkdirAll(filepath.Join(root, "meta"), 0777)
+			stLog = filepath.Join(root, "meta", "strace.log")
+			cs2 := &run.Case{Root: root, Bin: c.Bin, Spec: s, Env: j.cfg.env(), KeepWd: true,
+				Wrap: []string{"strace", "-f", "-y", "-qq", "-s", "4096", "-e", "trace=%file,%process", "-o", stLog}}
+			c.Eval(1)
+			res = cs2.Run()
+		} else {
+			res = execSpec(c, root, s, j.cfg, nil, true, 0)
+		}
 		ps, hang := judgeRun(res, s, exp)
 		if hang != "" {
 			c.Inconclusive("subset run: " + hang)
 			return
+		}
+		if j.strace {
+			pre := map[string]bool{}
+			for _, p := range prePaths {
+				pre[filepath.Join(wd, p)] = true
+			}
+			sps, st := mon.StraceSpec(stLog, wd, nil, pre)
+			ps = append(ps, sps...)
+			c.Count("strace_lines_checked", st.Lines)
+			c.Count("strace_runs", 1)
 		}
 		after := run.Snap(res.Wd)
 		sort.Strings(prePaths)
@@ -315,4 +337,3 @@ func tail(s string, n int) string {
 	return s
 }
 
-var _ = os.Remove
